@@ -1846,7 +1846,7 @@ def cov_Obs(means, cov, name, grad=None):
         means = [means]
 
     for i in range(len(means)):
-        ol.append(covobs_to_obs(Covobs(means[i], cov, name, pos=i, grad=grad)))
+        ol.append(covobs_to_obs(Covobs(float(means[i]), cov, name, pos=i, grad=grad)))
     if ol[0].covobs[name].N != len(means):
         raise ValueError('You have to provide %d mean values!' % (ol[0].N))
     if len(ol) == 1:
